@@ -76,6 +76,9 @@ pub struct Expect {
     /// events of reports that cannot even be built (their leading app's id is not a legal header value, so the
     /// X-Goog-Update-AppId header cannot be formed): never on the wire, each counted as lost
     pub unbuildable_lost: usize,
+    /// some report of this check names both header-safe and header-unsafe app ids: whether it can be built
+    /// depends on which app leads it, and the order of apps inside a report is not fixed by the statement
+    pub reports_buildability_undecided: bool,
 }
 
 #[derive(Clone, Debug)]
@@ -850,9 +853,13 @@ fn finish_check(c: &mut CheckView, st: &mut MState, setup: &Setup) {
         let header_safe = |id: &str| id.bytes().all(|b| (0x20..0x7f).contains(&b) || b == b'\t');
         let mut kept = vec![];
         for rep in std::mem::take(&mut e.reports) {
-            if rep.apps.first().map(|a| !header_safe(&a.0)).unwrap_or(false) {
+            let unsafe_n = rep.apps.iter().filter(|a| !header_safe(&a.0)).count();
+            if unsafe_n > 0 && unsafe_n == rep.apps.len() {
                 e.unbuildable_lost += if rep.what == "install-results" { rep.apps.iter().map(|a| a.3.len()).sum::<usize>().max(1) } else { 1 };
             } else {
+                if unsafe_n > 0 {
+                    e.reports_buildability_undecided = true;
+                }
                 kept.push(rep);
             }
         }
